@@ -1022,6 +1022,56 @@ def run_tie(ctx):
     return facts
 
 
+LOCALE_SCRIPT = r'''
+import json, sys
+sys.path.insert(0, sys.argv[1])
+from securesystemslib.signer import CryptoSigner, SSlibKey
+from cryptography.hazmat.primitives import serialization
+from in_toto.models.link import Link
+from in_toto.models.metadata import Envelope, Metablock, Metadata
+priv = serialization.load_pem_private_key(open(sys.argv[2], "rb").read(), None)
+key = SSlibKey.from_crypto(priv.public_key())
+signer = CryptoSigner(priv, key)
+pub = key.to_dict(); pub["keyid"] = key.keyid
+bad = []
+for dsse in (False, True):
+    link = Link(name="caf\u00e9", materials={"\u65e5\u672c/\u00e9.txt": {"sha256": "ab" * 32}},
+                byproducts={"stdout": "\u00e9\u20ac \U0001F600\n", "stderr": "", "return-value": 0})
+    md = Envelope.from_signable(link) if dsse else Metablock(signed=link)
+    md.create_signature(signer)
+    before = md.signed.signable_bytes if not dsse else md.pae()
+    path = sys.argv[3] + (".dsse" if dsse else ".mb")
+    md.dump(path)
+    try:
+        back = Metadata.load(path)
+        back.verify_signature(pub)
+        after = back.signed.signable_bytes if not dsse else back.pae()
+        if after != before:
+            bad.append("signed bytes changed by the disk round trip (dsse=%s)" % dsse)
+    except Exception as e:
+        bad.append("dsse=%s: %s: %s" % (dsse, type(e).__name__, str(e)[:120]))
+print(json.dumps(bad))
+'''
+
+
+def locale_roundtrip(ctx):
+    """sign -> dump -> load -> verify of non-ASCII metadata in a process whose locale encoding is NOT UTF-8
+    (LC_ALL=C, UTF-8 mode off): the disk round trip must not depend on the locale.  -> list of problems"""
+    import subprocess
+    import sys
+    script = os.path.join(ctx.work, "locale_rt.py")
+    with open(script, "w") as f:
+        f.write(LOCALE_SCRIPT)
+    env = dict(os.environ, LC_ALL="C", LANG="C", PYTHONUTF8="0", PYTHONCOERCECLOCALE="0", PYTHONIOENCODING="utf-8")
+    keyfile = os.path.join(core.ROOT, "harness", "keys", "ed25519_0.pem")
+    p = subprocess.run([sys.executable, script, core.REPO, keyfile, os.path.join(ctx.work, "locale_rt")], env=env,
+                       capture_output=True, text=True, timeout=120)
+    try:
+        return json.loads(p.stdout.strip().splitlines()[-1])
+    except (ValueError, IndexError):
+        return ["locale round-trip helper failed: rc %s %s" % (p.returncode, (p.stderr or p.stdout)[-300:])]
+
+
 def run(ctx):
     thorough = ctx.thorough()
     t_start = time.time()
@@ -1033,6 +1083,11 @@ def run(ctx):
     use_gpg = thorough
     model = core.Model()
     violations = 0
+    for pr in locale_roundtrip(ctx):
+        violations += 1
+        ctx.violation("disk round trip under a non-UTF-8 locale (LC_ALL=C, UTF-8 mode off): " + pr,
+                      {"kind": "locale_roundtrip", "env": {"LC_ALL": "C", "PYTHONUTF8": "0", "PYTHONCOERCECLOCALE": "0"},
+                       "what": "Link with non-ASCII name/materials/byproducts, sign, dump, Metadata.load, verify_signature"})
 
     # (a) (b)
     vals, impl_c = stream_canon(ctx, 12000 if thorough else 2500)
@@ -1085,15 +1140,16 @@ def run(ctx):
         violations += 1
 
     # (f)
-    gpg = hk.Gpg(ctx.work) if use_gpg else None
+    use_gpg_cli = True                                        # gpg sign/replace/verify sequences also run in the quick tier
+    gpg = hk.Gpg(ctx.work) if use_gpg_cli else None
     cli_steps, cli_mism, cli_unmod = [], [], 0
     try:
         ck = CliKeys(ctx, gpg)
         fam_of_keyid = {k["pub"]["keyid"]: k["fam"] for k in ck.keys.values() if "pub" in k}
-        cli_fams = ["ed25519", "ed25519", "rsa", "ecdsa"] + (["gpg"] if use_gpg else [])
+        cli_fams = ["ed25519", "ed25519", "rsa", "ecdsa"] + (["gpg"] if use_gpg_cli else [])
         specs = []
         for i in range(400 if thorough else 90):
-            spec = gen_cli_spec(ctx, ck, cli_fams, use_gpg)
+            spec = gen_cli_spec(ctx, ck, cli_fams, use_gpg_cli)
             steps = cli_sequence(ctx, ck, spec)
             for s in steps:
                 s["spec"] = spec
